@@ -1,4 +1,9 @@
-"""Per-property configuration of ./check (translators, trusted base, assumptions, time limits)."""
+"""Per-property configuration of ./check: one JSON file per property under lib/props/."""
+import glob
+import json
+import os
+
+HERE = os.path.dirname(os.path.abspath(__file__))
 
 COMMON_TB = [
     "Lean compiler/runtime for the driver executable (model answers in the correspondence are compiled code)",
@@ -6,26 +11,9 @@ COMMON_TB = [
     "rustc; the harness links every dmntk-* crate from /repo's working tree via [patch.crates-io]",
 ]
 
-PROPS = {
-    "C16": {
-        "translators": [],
-        "trusted_base": COMMON_TB + [
-            "hand-written model Dmn/Model/FType.lean, Dmn/Model/Coerce.lean of feel/src/types.rs (is_equivalent, is_conformant, coerced) and values.rs (type_of); tied by correspondence on the public API",
-        ],
-        "assumptions": [
-            "FeelType::Context is a BTreeMap, hence keys are distinct (FType.WF)",
-            "the correspondence samples types to depth 4; the theorems have no depth bound",
-        ],
-    },
-    "C17": {
-        "translators": [],
-        "trusted_base": COMMON_TB + [
-            "hand-written model Dmn/Model/Workspace.lean of workspace/src/workspace.rs (add, remove, replace, clear, deploy, evaluate_invocable lookup); HashMaps as association lists; tied by the verif_snapshot hook and behaviourally",
-            "ModelEvaluator::new succeeds/fails as a parameter of the model (Def.builds); the alphabet's failing model is found by trying candidates on the real builder",
-        ],
-        "assumptions": [
-            "HashMap insert/remove/contains_key behave as a finite map (std)",
-            "the correspondence enumerates histories up to length 4 (quick) / 6 (thorough) over 11 operations and random ones to length 200; the theorems hold for every history",
-        ],
-    },
-}
+PROPS = {}
+for path in sorted(glob.glob(os.path.join(HERE, "props", "C*.json"))):
+    pid = os.path.basename(path)[:-5]
+    cfg = json.load(open(path))
+    cfg["trusted_base"] = COMMON_TB + cfg.get("trusted_base", [])
+    PROPS[pid] = cfg
